@@ -14,7 +14,13 @@ func c18Item(i int) *Item {
 		// SMALLALL: a configuration about the relations between items (equal block numbers, order, count)
 		sym.Assume(it.BlockNum < 128)
 	}
-	it.BlockId = sym.Str("block-id", sym.Param("IDLEN", 2))
+	if sym.Param("FIXEDIDS", 0) == 1 {
+		// configuration about the relations between items: distinct concrete ids, so map
+		// lookups and the decoder's key handling stay concrete and only numbers are symbolic
+		it.BlockId = string(rune('a' + i))
+	} else {
+		it.BlockId = sym.Str("block-id", sym.Param("IDLEN", 2))
+	}
 	it.Payload = sym.Bytes("payload", sym.Param("PAYLEN", 2))
 	it.Cursor = sym.Str("cursor", sym.Param("CURLEN", 1))
 	if !small && sym.Choice("has-timestamp", 2) == 1 {
